@@ -89,6 +89,10 @@ def run(chk) -> None:
                 ext = any(isinstance(c, ast.Call) and isinstance(c.func, ast.Attribute) and c.func.attr == "extend" and isinstance(expand(c.args[0], c, depth=1), ast.Call) and last(call_name(expand(c.args[0], c, depth=1))) == "_add_or_enqueue_event" for c in ast.walk(w))
                 chk.ob("C35.R1", "a drained (previously PREPARING) event is started through _add_or_enqueue_event and its commands are kept", ok and ext, m=mm, node=w, fn=fn, instance=f"drain-publishes:{fn.name}", reason="the drain loop starts work without the helper's RUNNING publication (or drops its commands)")
 
+    # worker ids of running invocations are distinct (otherwise RUNNING/NOT_RUNNING of two live invocations interleave on one worker)
+    from .c01 import check_worker_id
+    check_worker_id(chk, "C35.R1")
+
     # ---------------------------------------------------------------- removal <-> NOT_RUNNING, order
     ms, sr = repo.func(f"{CL}:_process_step_result_tick")
     cfgs = CFG(sr)
@@ -151,6 +155,7 @@ def run(chk) -> None:
 TWINS = [
     Twin("running not published", CL_REL, "        commands.append(CommandRunWorker(step_name=step_name, event=event.event, id=id))\n        commands.append(\n            CommandPublishEvent(\n                StepStateChanged(\n                    step_state=StepState.RUNNING,", "        commands.append(CommandRunWorker(step_name=step_name, event=event.event, id=id))\n        (\n            CommandPublishEvent(\n                StepStateChanged(\n                    step_state=StepState.RUNNING,", "C35.R1"),
     Twin("running with wrong worker", CL_REL, "                    input_event_name=type(event.event).__name__,\n                    worker_id=str(id),", "                    input_event_name=type(event.event).__name__,\n                    worker_id=str(len(state.in_progress)),", "C35.R1"),
+    Twin("worker id from length", CL_REL, "id = id_candidates[0]", "id = len(state.in_progress)", "C35.R1"),
     Twin("preparing published as running", CL_REL, "                    step_state=StepState.PREPARING,", "                    step_state=StepState.RUNNING,", "C35.R1"),
     Twin("not running after outputs", CL_REL, "        commands.insert(\n            0,\n            CommandPublishEvent(\n                StepStateChanged(\n                    step_state=StepState.NOT_RUNNING,", "        commands.append(\n            CommandPublishEvent(\n                StepStateChanged(\n                    step_state=StepState.NOT_RUNNING,", "C35.R2"),
     Twin("not running on rerun too", CL_REL, "    if step_no_longer_in_progress:\n        commands.insert(", "    if True:\n        commands.insert(", "C35.R2"),
